@@ -4,6 +4,11 @@ import json, subprocess
 
 # id: (level, engine, technique, level text, level note, design ref)
 CHECKS = {
+ "C01": ("exploration", "space",
+         "complete enumeration of operator aspect x ellipsoid x a fixed deterministic lattice x both round-trip orders; wrapper forms compared bit for bit with the plain operator",
+         "48 projection aspects (merc x5, webmerc, tmerc x3, utm/butm zones x hemispheres, btmerc, lcc 1SP/2SP north/south, laea oblique/equatorial/polar N/S, omerc A/B/Laborde, somerc) x 6 built-in ellipsoids (thorough: all instantiable table entries) x a lattice of every special latitude/longitude offset visible in the code plus a uniform step (quick 7.5x15 deg, thorough 0.5x2 deg) clipped to the documented domain, heights and epochs varying; cart at 7 heights, 8 helmert forms, molodensky x5, latitude x6, permtide x9, exact conversions, dm/dms, geodesic reversible, grid shifts and deformation inside coverage of the shipped grids, four whole pipelines; both fwd->inv (ground distance on the ellipsoid) and inv->fwd (metres); counts must equal the set size, the epoch must come back bit-identical; eight wrapper forms (inv prefix/infix/suffix, one-step pipeline, macro body, inverted macro) must be bit-identical to the plain operator (directions exchanged where applicable). Built-in names absent from the catalogue are printed as UNCOVERED.",
+         "Tolerances come from the statement (10 um rigorous/exact, 1 mm btmerc/omerc/molodensky/cart above 100 km, second order in the angles for small-angle helmert, bit-exact permutations and dyadic translations). Coverage is the stated lattice only; nothing is claimed between lattice points. The harness's ground-distance metric uses its own M and N.",
+         "DESIGN.md §3 C01"),
  "C02": ("model_checking", "explore",
          "explicit-state exploration of apply histories: every tuple sequence up to a length bound x every chunking through one handle, vs. each tuple alone on a fresh context",
          "For each of 60 catalogue definitions (every built-in operator in at least one parameterisation incl. static/dynamic/t_obs helmert, grid operators on the shipped grids, stack pipelines, macros) and each supported direction: all ordered sequences of length 0..4 over a 6-tuple alphabet (two epochs, NaN epoch, out-of-domain, NaN member, duplicate; thorough: length 0..5 over 8 tuples) x every contiguous chunking, plus one 100000-tuple set, all applied through one handle; every per-tuple result must be bit-identical to that tuple transformed alone on a fresh context, counts additive for elementary operators, and the used handle must still behave like a fresh twin. The same tuples go through Vec/array/slice of Coor4D/3D/2D/32, the (T,t) and (T,h,t) adapters and a user container and must agree in the stored dimensions.",
@@ -87,7 +92,7 @@ def main():
             "add_only": True,
         },
         "engines": [
-            {"name": "space", "path": "/verif/mc/src/engine.rs", "kind_free_text": "exhaustive mixed-radix product enumeration on 16 threads (par_range/decode)", "serves_properties": ["C11", "C16", "C19"]},
+            {"name": "space", "path": "/verif/mc/src/engine.rs", "kind_free_text": "exhaustive mixed-radix product enumeration on 16 threads (par_range/decode)", "serves_properties": ["C01", "C11", "C16", "C19"]},
             {"name": "explore", "path": "/verif/mc/src/props", "kind_free_text": "explicit-state / program-tree exploration of the real API against reference models written in Rust", "serves_properties": ["C02", "C03", "C04", "C12", "C17", "C18"]},
             {"name": "sched", "path": "/verif/mc/src/props/c18.rs", "kind_free_text": "shuttle DfsScheduler over real threads sharing Plain contexts and the process-wide grid cache; yield points from hook H4", "serves_properties": ["C18"]},
             {"name": "workers", "path": "/verif/mc/src/engine.rs", "kind_free_text": "worker subprocesses (2 MiB stack, 4 GiB address space, watchdog) for hang / overflow / abort detection", "serves_properties": ["C04"]},
